@@ -90,11 +90,13 @@ class PipeSuite:
             def start(idx, job):
                 label, cmd, opts = job
                 outp = os.path.join(work, "out-%d.txt" % idx)
-                sh = " ".join(_q(c) for c in cmd) + " | " + _q(C.DRIVER) + " " + self.name + "-check > " + _q(outp)
+                errp = os.path.join(work, "err-%d.txt" % idx)
+                # stderr goes to a file: a pipe that nobody drains blocks the harness once 64 KiB of panic messages are written
+                sh = "( " + " ".join(_q(c) for c in cmd) + " | " + _q(C.DRIVER) + " " + self.name + "-check > " + _q(outp) + " ) 2> " + _q(errp)
                 env = dict(C.ENV)
                 env["VERIF_HASHES"] = "1"
-                p = subprocess.Popen(["bash", "-o", "pipefail", "-c", sh], env=env, stderr=subprocess.PIPE)
-                return (p, outp, label)
+                p = subprocess.Popen(["bash", "-o", "pipefail", "-c", sh], env=env)
+                return (p, outp, label, errp)
 
             import time as _t
             t0 = _t.time()
@@ -103,16 +105,24 @@ class PipeSuite:
                     idx, job = pending.pop(0)
                     running.append(start(idx, job))
                 still = []
-                for (p, outp, label) in running:
+                for (p, outp, label, errp) in running:
                     rc = p.poll()
                     if rc is None:
                         if _t.time() - t0 > self.TIMEOUT:
                             p.kill()
                             res.error = "suite %s timed out (%s)" % (self.name, label)
                         else:
-                            still.append((p, outp, label))
+                            still.append((p, outp, label, errp))
                     else:
-                        err = p.stderr.read().decode(errors="replace") if p.stderr else ""
+                        err = ""
+                        if rc != 0:
+                            try:
+                                with open(errp, "rb") as f:
+                                    f.seek(0, 2)
+                                    f.seek(max(0, f.tell() - 2000))
+                                    err = f.read().decode(errors="replace")
+                            except OSError:
+                                pass
                         if rc != 0 and not res.error:
                             res.error = "pipeline %s exited %d: %s" % (label, rc, err[-600:])
                         outputs.append(outp)
